@@ -318,6 +318,21 @@ pub fn shapes() -> Vec<ProgCase> {
         c.kernel = Some(kernel.to_string());
         out.push(c);
     }
+    // a range-checked u32 operation executed at a cycle whose index is also the row of a memory access: both
+    // register their 16-bit lookups for the same row of the range checker's bus (u32 operations and memory
+    // accesses interleaved so that some u32 cycle lands on one of at least six consecutive memory rows)
+    for (k, body) in [
+        "mem_store.0 mem_store.1 mem_load.0 mem_load.1 u32overflowing_add drop mem_store.2 mem_store.3",
+        "repeat.6 mem_load.0 push.1000 u32wrapping_add mem_store.0 mem_load.1 mem_load.0 u32overflowing_add drop mem_store.1 end mem_load.1 drop",
+        "repeat.6 push.7 mem_store.0 end repeat.60 push.5 u32wrapping_add end drop",
+        "repeat.8 push.7 mem_store.1 end repeat.40 push.3 u32wrapping_mul push.9 u32wrapping_add end drop",
+    ]
+    .iter()
+    .enumerate()
+    {
+        out.push(mk(format!("range_row_collision/{k}"), format!("begin {body} end"), input_regime(2), vec!["stack", "memory", "range"]));
+        out.push(mk(format!("range_row_collision_call/{k}"), format!("proc.f {body} end begin call.f end"), input_regime(2), vec!["stack", "memory", "range"]));
+    }
     // overflow-table histories that end deeper than 16 after the table shrank and grew again: rows that were
     // popped lie between the surviving rows (the reported overflow addresses must be those of the survivors)
     for (k, body) in [
